@@ -111,3 +111,7 @@ impl<T> HashSet<T> {
     #[verifier::external_body] pub fn remove(&mut self, t: &T) -> (b: bool) ensures final(self).view() == old(self).view().remove(*t), b == old(self).view().contains(*t) { unimplemented!() }
     #[verifier::external_body] pub fn clear(&mut self) ensures final(self).view() == SSet::<T>::empty() { unimplemented!() }
 }
+impl<T> HashSet<T> {
+    /// `Extend<T>::extend` with another set
+    #[verifier::external_body] pub fn extend(&mut self, other: HashSet<T>) ensures final(self).view() == old(self).view() + other.view() { unimplemented!() }
+}
